@@ -639,7 +639,18 @@ pub fn coordinator(check: &dyn Check, opts: &RunOpts) -> i32 {
     if !new_by_sig.is_empty() {
         let _ = std::fs::create_dir_all(&replay_dir);
     }
+    let per_sig: usize = std::env::var("KV_REPLAYS_PER_SIG").ok().and_then(|s| s.parse().ok()).unwrap_or(1);
     for (sig, vs) in new_by_sig.iter() {
+        // extra replays for triage (not reported as separate VIOLATION lines)
+        if per_sig > 1 {
+            let mut sorted: Vec<&Value> = vs.iter().collect();
+            sorted.sort_by_key(|v| v["idx"].as_u64().unwrap_or(u64::MAX));
+            for (k, v) in sorted.iter().enumerate().skip(1).take(per_sig - 1) {
+                let idx = v["idx"].as_u64().unwrap_or(0);
+                let doc = json!({"property": id, "tier": opts.tier.name(), "seed": opts.seed, "idx": idx, "lane": v["lane"], "signature": sig, "what": v["what"], "witness": v["witness"]});
+                let _ = std::fs::write(format!("{replay_dir}/extra-{:016x}-{k}.json", hash_str(sig)), serde_json::to_string_pretty(&doc).unwrap());
+            }
+        }
         let v = vs.iter().min_by_key(|v| v["idx"].as_u64().unwrap_or(u64::MAX)).unwrap();
         let idx = v["idx"].as_u64().unwrap_or(0);
         let lane = v["lane"].as_str().unwrap_or(&opts.lane).to_string();
